@@ -3,7 +3,7 @@
 STRINGS = {
     "kind": "tlc_replay", "name": "strings", "module": "MCDeb822Strings.tla", "cfg": "MCDeb822Strings.cfg",
     "stage": "deb822_strings",
-    "consts": {"quick": {"N": 5, "M": 7}, "thorough": {"N": 6, "M": 9}},
+    "consts": {"quick": {"N": 5, "M": 7}, "thorough": {"N": 6, "M": 7}},
     "workers": {"quick": 8, "thorough": 16},
     "timeout": {"quick": 600, "thorough": 6000},
     "henv": {"quick": {"VERIF_MAPS": 3}, "thorough": {"VERIF_MAPS": 4}},
@@ -90,9 +90,9 @@ PROPS = {
         "claimed": True,
         "technique": "TLA+ lexer/parser machine model-checked by TLC (fidelity, token partition, strict-iff-no-error as invariants); every TLC behaviour replayed on the real readers",
         "level_text": "TLC proves on the implementation-shaped machine (spec/Deb822.tla) that tokens partition the input and every token enters the tree exactly once, for every class string up to the bound and every generated document; each of those behaviours is replayed on the real readers under several concretisations and the printed text, strict/tolerant agreement and Read-based entry points are compared; tree shape and error counts are compared with the machine's prediction (drift only). Bounded-exhaustive over inputs, which is the quantifier of the property.",
-        "level_note": "bounded (all class strings of length <= 5 quick / 6 thorough, <= 7 / 9 over the line-structure and indentation classes, plus generated documents and repository data); class abstraction trusted as stated in DESIGN.md section 8",
+        "level_note": "bounded (all class strings of length <= 5 quick / 6 thorough, <= 7 over the line-structure and indentation classes, plus generated documents and repository data); class abstraction trusted as stated in DESIGN.md section 8",
         "stages": [STRINGS, DOCS, FILES],
-        "rule": "(1) every class string over {K,D,C,H,S,N,R,U} up to length N (quick 5, thorough 6) and over {K,C,R,N} and {K,C,S,N} up to length M (7 / 9) through the TLA+ lexer/parser machine, "
+        "rule": "(1) every class string over {K,D,C,H,S,N,R,U} up to length N (quick 5, thorough 6) and over {K,C,R,N} and {K,C,S,N} up to length M (7) through the TLA+ lexer/parser machine, "
                 "(2) every generated well-formed document and single-line corruption, (3) abstractions of repository data / unit-test documents / seeded mutations; "
                 "each replayed on the real readers (>=3 concretisations for abstract cases); distinct = distinct abstract inputs of length >= 2",
         "exhaustive": {"quick": True, "thorough": True},
